@@ -79,7 +79,7 @@ static void check_projection(Ctx& ctx, const Ell& E, const Under& U, const Oracl
     auto FAIL = [&](const char* kind, const std::string& msg, mc::Fields extra = {}) {
       mc::Fields f = {{"kind", kind}, {"proj", U.name}, {"lat", fmt(lat)}, {"dlon", fmt(dlon)}, {"lon0", fmt(lon0)}};
       for (auto& t : extra) f.push_back(t);
-      if (U.defect_blanket && extra.empty()) f.push_back({"defect", U.defect});
+      if (U.defect_blanket) { bool has = false; for (auto& t : extra) if (t.first == "defect") has = true; if (!has) f.push_back({"defect", U.defect}); }
       ctx.fail(where + " " + kind, where + ": " + msg, f);
     };
     double x = NAN, y = NAN, gam = NAN, k = NAN; int sg = 0;
@@ -102,9 +102,9 @@ static void check_projection(Ctx& ctx, const Ell& E, const Under& U, const Oracl
     const bool singular = pole && !regpole;
     const Q gref = O.gamma(lam) / proj_cf::deg();
     ctx.sig((uint64_t)singular + 2 * (uint64_t)regpole + 4 * (uint64_t)(P.finite ? 1 : 0));
-    // conditioning: results are doubles, so a plane error of ULPS ulp of the working size (a, rho0, |x|, |y|) is unavoidable; on the ground it is amplified by 1/k
+    // conditioning: results are doubles, so a plane error of ULPS ulp of the working size (a, |x|, |y|) is unavoidable; on the ground it is amplified by 1/k
     // (conformal) resp. max(k, 1/k) (equal area: east-west plane errors shrink by k, north-south ones grow by k)
-    Q size = std::max(std::max(fabsq(Q(x)), fabsq(Q(y))), std::max(fabsq(O.rho0), E.a));
+    Q size = std::max(std::max(fabsq(Q(x)), fabsq(Q(y))), E.a);        // NOT rho0: the library's divided differences never form rho0 - rho, and nearly cylindrical cones (rho0 ~ a/n) must be held to the same accuracy
     // AlbersEqualArea works at unit scale and divides x, y by the central scale k0 at the end: the working size is a/k0 (matters after SetScale to an extreme scale)
     if (!O.conformal && U.has_origin && U.k0c > 0) size = std::max(size, E.a / Q(U.k0c));
     const Q eps_plane = ULPS * 1.1e-16Q * size;
@@ -145,6 +145,10 @@ static void check_projection(Ctx& ctx, const Ell& E, const Under& U, const Oracl
       const char* cls = O.conformal ? "conformal" : "albers";
       if (gerr > TOLF) defect_hit = is_defect();
       WORST(std::string(cls) + ".fwd.pos/tol", D(gerr / TOLF), 0);
+      if (O.n != 0 && fabsq(O.n) < 0.02Q) {          // nearly cylindrical cones (|stdlat| <= 1 deg or nearly symmetric pairs): reported separately
+        WORST(std::string("nearly-cylindrical.") + cls + ".fwd.pos/tol", D(gerr / TOLF), 0);
+        if (eps_plane * amp < TOLP) WORST(std::string("nearly-cylindrical.") + cls + ".fwd.pos-wellconditioned_nm", D(gerr / ascale * 1e9Q), 0);
+      }
       if (eps_plane * amp < TOLP) WORST(std::string(cls) + ".fwd.pos-wellconditioned_nm", D(gerr / ascale * 1e9Q), 0);
       if (gerr > TOLF) FAIL("fwd-oracle", "ground error " + fq(gerr) + " m > " + fq(TOLF) + " (x=" + fx(x) + " y=" + fx(y) + " closed form " + fq(P.x) + "," + fq(P.y) + " k=" + fq(kk) + ")", DT());
       Q eg = fabsq(angdiff(Q(gam), gref)), ek = fabsq(Q(k) / kk - 1);
@@ -187,7 +191,7 @@ static void check_projection(Ctx& ctx, const Ell& E, const Under& U, const Oracl
     }
 
     // ---- rotation and magnification of the oracle map (central differences of the closed-form map)
-    if (do_jacobian && std::fabs(lat) <= 89.9 && lon0 == 0 && !singular && !(O.n != 0 && fabsq(O.n) < 1e-6Q)) {      // 0 < |n| < 1e-6: rho ~ a/n, differences of the naive closed form lose too many digits
+    if (do_jacobian && std::fabs(lat) <= 89.9 && lon0 == 0 && !singular) {
       Q phi = Q(lat) * proj_cf::deg();
       const Q h = ldexpq(Q(1), -30);
       XY a = O.fwd(proj_cf::latr(phi + h), lam), b = O.fwd(proj_cf::latr(phi - h), lam), c = O.fwd(L, lam + h), d = O.fwd(L, lam - h);
@@ -228,6 +232,8 @@ static void check_projection(Ctx& ctx, const Ell& E, const Under& U, const Oracl
         if (!(err <= trt)) FAIL("roundtrip-singular-pole", "reverse(forward(pole)) = lat " + fx(la2) + ", " + fq(err) + " m from the pole", DR());
       } else {
         WORST(std::string(O.conformal ? "conformal" : "albers") + ".roundtrip/tol", D(err / trt), 0);
+        if (O.n != 0 && fabsq(O.n) < 0.02Q) { WORST(std::string("nearly-cylindrical.") + (O.conformal ? "conformal" : "albers") + ".roundtrip/tol", D(err / trt), 0);
+          if (eps_plane * amp < TOLP) WORST(std::string("nearly-cylindrical.") + (O.conformal ? "conformal" : "albers") + ".roundtrip-wellconditioned_nm", D(err / ascale * 1e9Q), 0); }
         if (!(err <= trt)) {
           if (fam.prolate && err <= tauf_gross) FAIL("roundtrip", "reverse(forward) = lat " + fx(la2) + " lon " + fx(lo2) + ", ground error " + fq(err) + " m > " + fq(trt), {{"tauf", "prolate-reverse"}});
           else FAIL("roundtrip", "reverse(forward) = lat " + fx(la2) + " lon " + fx(lo2) + ", ground error " + fq(err) + " m > " + fq(trt), DR());
@@ -284,7 +290,7 @@ static void check_same(Ctx& ctx, const Ell& E, const Under& A_, const Under& B_,
     Q amp = O.conformal ? 1 / kk : (kk > 1 ? kk : 1 / kk);
     Q err = hypotq(Q(x1) - Q(x2), Q(y1) - Q(y2)) * amp;
     if (pole && !(std::fabs(x1) < 1e25 && std::fabs(y1) < 1e25)) continue;
-    const Q size = std::max(std::max(fabsq(Q(x1)), fabsq(Q(y1))), std::max(fabsq(O.rho0), E.a));
+    const Q size = std::max(std::max(fabsq(Q(x1)), fabsq(Q(y1))), E.a);
     const Q eps_plane = ULPS * 1.1e-16Q * size;
     Q t = tol_ground + eps_plane * amp;
     const Q rapex = (O.conic && !pole) ? hypotq(Q(x1), O.rho0 - Q(y1)) : HUGE_VALQ;
@@ -346,6 +352,9 @@ int main(int argc, char** argv) {
   const std::vector<double> K1 = {1.0, 0.994};
   std::vector<double> SINGLE = {-90, -60, -1e-9, 0, 1e-9, 45, 89.999, 90};
   std::vector<Pair> PAIRS = {{30, 60}, {45, 45 + 1e-9}, {45, 45 + 1e-5}, {-30, 30}, {0, 1e-9}, {89, 89.9}, {-60, -20}};
+  // nearly cylindrical cones (n from 2e-2 down to denormal): the library must use its divided-difference forms there (the direct (t^n - t0^n)/n loses eps a / tan(lat0))
+  for (double v : {1.0, 0.1, 0.01, 0.001, 1e-6, 1e-10, 1e-200, 1e-310}) { SINGLE.push_back(v); SINGLE.push_back(-v); }
+  for (Pair q : {Pair{-10, 10.01}, Pair{-30, 30 + 1e-6}, Pair{30, -30 - 1e-10}, Pair{-1e-6, 3e-6}}) PAIRS.push_back(q);
   std::vector<Pair> ALBERS_ONLY;           // one parallel at a pole: admissible for Albers, documented GeographicErr for LambertConformalConic
   // incl. the Math::tauf thresholds: one vs two Newton steps at 3.35 deg, asymptotic start value for |taup| > 70 (lat > 89.18)
   std::vector<double> LATBASE = {-90, -89.999999999, -89.5, -89, -60, -45, -4, -1, -1e-9, 0, 1e-9, 1, 3, 30, 45, 60, 75, 89, 89.5, 89.999999999, 90};
@@ -353,7 +362,7 @@ int main(int argc, char** argv) {
   if (!T) AX.dlons = {0, 1e-9, 30, 179, 180, -180, -30};
   std::vector<double> SETSCALE_LATS = {-89.0, -60.0, 0.0, 1e-9, 45.0, 89.0};
   if (T) {   // deep thorough tier
-    for (double v : {-89.999, -89.0, -75.0, -45.0, -30.0, -10.0, -1.0, 1.0, 10.0, 30.0, 60.0, 75.0, 89.0, 89.9}) SINGLE.push_back(v);
+    for (double v : {-89.999, -89.0, -75.0, -45.0, -30.0, -10.0, 10.0, 30.0, 60.0, 75.0, 89.0, 89.9}) SINGLE.push_back(v);
     // nearly equal parallels at several separations (mid, equator, near the pole; both hemispheres), wide and asymmetric pairs, pairs across the equator
     for (Pair q : {Pair{45, 45 + 1e-7}, Pair{45, 45.001}, Pair{45, 45.1}, Pair{45, 46}, Pair{0, 1e-5}, Pair{-1e-5, 2e-5}, Pair{-1e-9, 1e-9}, Pair{1e-9, 1e-5}, Pair{89.9, 89.99}, Pair{89.99, 89.999},
                    Pair{-45, -45 - 1e-9}, Pair{-45, -45.00001}, Pair{-45, -45.001}, Pair{-45, -46}, Pair{-30, -60}, Pair{-89, -89.9}, Pair{-89.9, -89.99}, Pair{-80, -20}, Pair{-1e-5, -1e-9},
@@ -367,8 +376,8 @@ int main(int argc, char** argv) {
   ctx.bound("ellipsoids", T ? "WGS84, sphere, Intl1924, f=+-1/298.257, (a=1,f=1/150), f=-1/150, f=+-0.01, f=+-0.05, f=+-0.1, f=+-0.2, (a=1,f=0.5)" : "WGS84, sphere, f=-0.1, (a=1,f=0.5)");
   ctx.bound("scales", T ? "k0/k1 in {1, 0.994}; SetScale(lat, k): polar stereographic at every latitude of the alphabet, conics at lat {-89,-60,-30,-1e-9,0,1e-9,10,45,75,89}, k in {1, 0.9}, each followed by the FULL lat x dlon x lon0 lattice"
                           : "k0/k1 in {1, 0.994}; SetScale(lat, k): polar stereographic at every latitude of the alphabet, conics at lat {-89,-60,0,1e-9,45,89}, k in {1, 0.9}, each followed by a 4 x 3 lat x dlon lattice");
-  ctx.bound("parallels", std::string("single {-90,-60,-1e-9,0,1e-9,45,89.999,90}; pairs {(30,60),(45,45+1e-9),(45,45+1e-5),(-30,30),(0,1e-9),(89,89.9),(-60,-20)} in both orders; constructor forms: 1-parallel, 2-parallel, sin/cos") +
-            (T ? "; deep tier: 14 more singles {+-89.999.., +-75, +-45 .. +-1, 89.9}, 31 more pairs (separations 1e-9, 1e-7, 1e-5, 1e-3, 0.1, 1 deg at 45, 0, -45 and near both poles; southern pairs; pairs across the equator incl. (-60,60); "
+  ctx.bound("parallels", std::string("single {-90,-60,0,45,89.999,90, +-{1, 0.1, 0.01, 0.001, 1e-6, 1e-9, 1e-10, 1e-200, 1e-310}}; pairs {(30,60),(45,45+1e-9),(45,45+1e-5),(-30,30),(0,1e-9),(89,89.9),(-60,-20),(-10,10.01),(-30,30+1e-6),(30,-30-1e-10),(-1e-6,3e-6)} in both orders; constructor forms: 1-parallel, 2-parallel, sin/cos") +
+            (T ? "; deep tier: 12 more singles {+-89.999.., +-75, +-45 .. +-10, 89.9}, 31 more pairs (separations 1e-9, 1e-7, 1e-5, 1e-3, 0.1, 1 deg at 45, 0, -45 and near both poles; southern pairs; pairs across the equator incl. (-60,60); "
                  "wide pairs to (-85,5)/(5,85)), 6 pole+parallel pairs (Albers; LambertConformalConic must throw), sin/cos constructors also with un-normalised (x0.5, x0.25) arguments" : ""));
   ctx.bound("lat", std::string("{+-90, +-(90-1e-9), +-89.5, +-89, -60, -45, -4, -1, +-1e-9, 0, 1, 3, 30, 45, 60, 75} + each standard parallel, the origin latitude and their +-1e-9 neighbours") +
             (T ? "; deep tier adds +-{0.1, 3.3, 3.4, 10, 20, 50, 70, 80, 85, 89.1, 89.2, 89.9, 89.99}, -30, 40" : ""));
@@ -513,6 +522,8 @@ int main(int argc, char** argv) {
         }
         std::vector<double> stds = {sp.l1, sp.l2};
         const bool pole_plus_parallel = albers && !sp.single && (std::fabs(sp.l1) == 90 || std::fabs(sp.l2) == 90) && sp.l1 != sp.l2;
+        // open finding: a standard parallel so close to the equator that n is a denormal number (|stdlat| < ~1e-306 deg): n*lam and tan(xi) tan(xi0) underflow
+        const bool denormal_n = O.n != 0 && fabsq(O.n) < 1e-300Q;
         const double the_pole = pole_plus_parallel ? (std::fabs(sp.l1) == 90 ? sp.l1 : sp.l2) : 0.0;
         const bool near_polar_pair = pole_plus_parallel && std::fabs(sp.l1 - sp.l2) < 1;
         if (pole_plus_parallel) for (Under& U : forms) U.pole_pair = the_pole;
@@ -536,6 +547,7 @@ int main(int argc, char** argv) {
           U.defect_image = [O](Lat L, Q lam) { Lat Lm = L; Lm.s = -L.s; return O.fwd(Lm, lam); };
           U.defect_k = [O](Lat L) { Lat Lm = L; Lm.s = -L.s; return O.k(Lm); };
         }
+        if (denormal_n) for (Under& U : forms) { U.defect = "denormal-standard-parallel"; U.defect_blanket = true; }      // takes precedence over the recognised (repaired) classes
         for (size_t fi = 0; fi < forms.size(); ++fi) {
           const Under& U = forms[fi];
           // origin latitude and central scale against the closed forms
@@ -582,12 +594,12 @@ int main(int argc, char** argv) {
             Lat Ls = proj_cf::latd(ls); XY Ps = Os.fwd(Ls, Q(0)); Q ks_o = Os.k(Ls);
             Q k0o = std::fabs(lat0d) == 90 ? (albers ? sqrtq(fabsq(Os.n)) : Q(k1s)) : Os.k(proj_cf::latr(Os.phi0));
             const Q ULPS = fabsq(E.f) <= 0.0100001Q ? 16 : 64;
-            Q size = std::max(std::max(fabsq(Ps.x), fabsq(Ps.y)), std::max(fabsq(Os.rho0), E.a)), eps_plane = ULPS * 1.1e-16Q * size;
+            Q size = std::max(std::max(fabsq(Ps.x), fabsq(Ps.y)), E.a), eps_plane = ULPS * 1.1e-16Q * size;
             Q rapex = Os.conic ? hypotq(Ps.x, Os.rho0 - Ps.y) : HUGE_VALQ;
             Q tk0 = 4 * (1.6e-14Q + (20e-9Q * (E.a / WGS84_A) * (albers ? 1 / ks_o : ks_o) + eps_plane) / rapex);
             Q ek0 = fabsq(Q(U.k0c) / k0o - 1);
             ctx.worst("setscale.central-scale/tol", D(ek0 / tk0), U.name);
-            if (ek0 > tk0) { mc::Fields ff = {{"kind", "setscale-k0"}, {"proj", U.name}}; if (near_polar_pair) ff.push_back({"defect", "albers-pole-plus-near-polar-parallel-inaccurate"}); else if (!albers && fabsq(Q(ks) / kold - 1) > 1e-15Q) ff.push_back({"defect", "lcc-setscale-stale-nrho0"});
+            if (ek0 > tk0) { mc::Fields ff = {{"kind", "setscale-k0"}, {"proj", U.name}}; if (near_polar_pair) ff.push_back({"defect", "albers-pole-plus-near-polar-parallel-inaccurate"}); else if (denormal_n) ff.push_back({"defect", "denormal-standard-parallel"}); else if (!albers && fabsq(Q(ks) / kold - 1) > 1e-15Q) ff.push_back({"defect", "lcc-setscale-stale-nrho0"});
               ctx.fail(U.name + " setscale-k0", U.name + ": CentralScale " + fx(U.k0c) + " closed form " + fq(k0o) + " tol " + fq(tk0), ff); }
             else if (ek0 > 0) { k1s = (double)(Q(k1s) * (Q(U.k0c) / k0o)); Os = albers ? make_albers_oracle(E, L1, L2, k1s) : make_lcc_oracle(E, L1, L2, k1s); }
           }
@@ -607,6 +619,7 @@ int main(int argc, char** argv) {
             U.defect_image = [Os, r](Lat L, Q lam) { XY p = Os.fwd(L, lam); p.x /= r; return p; };
             U.defect_k = Os.k;
           }
+          if (denormal_n) { U.defect = "denormal-standard-parallel"; U.defect_blanket = true; U.defect_in_reverse = false; }
           Axes As; As.lats = {ls, -45, 30, 60}; As.dlons = {0, 30, -179}; As.lon0s = {0};
           if (T) { As = A; if (std::find(As.lats.begin(), As.lats.end(), ls) == As.lats.end()) As.lats.push_back(ls); }      // deep tier: the full lattice
           check_projection(ctx, E, U, Os, As, f2, {}, 1.0, false);
